@@ -27,7 +27,7 @@ import (
 // ---------------------------------------------------------------- floats
 
 // floatPool: the decimal64 values the generators use (all exactly printable).
-var floatPool = []float64{0, 1, -1, 1.5, -2.25, 3.14, 100.01, 150, 0.5, 12.3, 4.2, -5.5, 5.5, 199.99, 0.1, 7, 42.42, 1234.5, 0.001, 2.125}
+var floatPool = []float64{0.00001, 0.00000001, 123456.78901234, 0, 1, -1, 1.5, -2.25, 3.14, 100.01, 150, 0.5, 12.3, 4.2, -5.5, 5.5, 199.99, 0.1, 7, 42.42, 1234.5, 0.001, 2.125}
 
 // floatsSeen collects every float that crosses the model boundary in a run, for the oracle tables.
 var floatsSeen = map[uint64]float64{}
@@ -41,7 +41,7 @@ func noteFloat(f float64) uint64 {
 
 // refFloatText is the reference rendering of a decimal64 held as float64 (what ygot is
 // expected to emit): shortest decimal digits, no exponent.
-func refFloatText(f float64) string { return fmt.Sprintf("%v", f) }
+func refFloatText(f float64) string { return strconv.FormatFloat(f, 'f', -1, 64) }
 
 // floatOracleTerm prints the Coq float_oracle built from everything noted so far.
 func floatOracleTerm() string {
@@ -433,7 +433,15 @@ func entriesTerm(es []keyedEntry) string {
 	for _, e := range es {
 		var ks []string
 		for _, k := range e.keys {
-			s, _ := scalarTerm(k)
+			s, ok := scalarTerm(k)
+			if !ok {
+				// an unset enum key (value 0) or nil union key can be produced by Unmarshal
+				if k.Kind() == reflect.Int64 {
+					s = "(VEnum " + coqStr(k.Type().Name()) + " 0%Z)"
+				} else {
+					s = "(VStr [])"
+				}
+			}
 			ks = append(ks, s)
 		}
 		items = append(items, "("+coqList(ks)+", "+structTerm(e.entry)+")")
